@@ -194,6 +194,23 @@ func init() {
 			ex.clock++
 			return smt.BVC(64, uint64(1000+ex.clock))
 		},
+		"maps.clone": func(ex *Exec, c *frame, fn *ssa.Function, a []Value) Value {
+			// runtime-provided shallow copy behind maps.Clone; the argument arrives as an interface value
+			src := a[0]
+			if ifc, ok := src.(Iface); ok {
+				m, _ := ifc.V.(*Map)
+				if m == nil {
+					return Iface{T: ifc.T, V: (*Map)(nil)}
+				}
+				cp := &Map{KeyT: m.KeyT}
+				for _, e := range m.Entries {
+					cp.Entries = append(cp.Entries, &mapEntry{K: e.K, V: copyVal(e.V)})
+				}
+				return Iface{T: ifc.T, V: cp}
+			}
+			ex.abort("maps.clone on %T is not modelled", src)
+			return nil
+		},
 		"strings.Clone":              func(ex *Exec, c *frame, fn *ssa.Function, a []Value) Value { return a[0] },
 		"internal/stringslite.Clone": func(ex *Exec, c *frame, fn *ssa.Function, a []Value) Value { return a[0] },
 		"crypto/rand.Int": func(ex *Exec, c *frame, fn *ssa.Function, a []Value) Value {
@@ -507,6 +524,7 @@ func (ex *Exec) sprintf(format Value, args Slice) Value {
 		}
 	}
 	unknown := false
+	maxUnk := 0
 	ai := 0
 	for i := 0; i < len(f); i++ {
 		if f[i] != '%' {
@@ -560,6 +578,29 @@ func (ex *Exec) sprintf(format Value, args Slice) Value {
 		flush()
 		segs = append(segs, nil)
 		unknown = true
+		// how long the formatted argument can be at most, when that is known
+		bound := -1
+		switch av := arg.V.(type) {
+		case *SymStr:
+			if !av.Opaque && (verb == 'q' || verb == 's' || verb == 'v' || verb == 'x') {
+				bound = 4*len(av.B) + 2 // every byte as \xNN plus the quotes
+				if p := precisionOf(spec); p >= 0 && verb == 'q' && p < len(av.B) {
+					bound = 4*p + 2
+				}
+			}
+		case *smt.Term:
+			if av.S.K == smt.KBV || av.S.K == smt.KBool {
+				bound = 24
+				if verb == 'q' || verb == 'c' || verb == 'U' {
+					bound = 12
+				}
+			}
+		}
+		if bound < 0 || maxUnk < 0 {
+			maxUnk = -1
+		} else {
+			maxUnk += bound
+		}
 	}
 	flush()
 	if !unknown {
@@ -569,7 +610,27 @@ func (ex *Exec) sprintf(format Value, args Slice) Value {
 		}
 		return out
 	}
-	return &SymStr{Opaque: true, Note: "Sprintf(" + f + ")", Segs: segs}
+	r := &SymStr{Opaque: true, Note: "Sprintf(" + f + ")", Segs: segs}
+	if maxUnk > 0 {
+		r.MaxUnk = maxUnk
+	}
+	return r
+}
+
+// precisionOf extracts the precision of a format specification such as %.40q (-1 if none).
+func precisionOf(spec string) int {
+	i := strings.IndexByte(spec, '.')
+	if i < 0 {
+		return -1
+	}
+	n, any := 0, false
+	for j := i + 1; j < len(spec) && spec[j] >= '0' && spec[j] <= '9'; j++ {
+		n, any = n*10+int(spec[j]-'0'), true
+	}
+	if !any {
+		return 0
+	}
+	return n
 }
 
 // toNative converts a concrete, simple engine value into a Go value for fmt.
